@@ -268,7 +268,12 @@ func (g *Gen) gotoShape(depth, d int) []Stmt {
 // faultStmt: a statement that raises when executed.
 func (g *Gen) faultStmt() []Stmt {
 	z := g.fresh("z")
-	switch g.R.Pick(20, 8, 8, 8, 10, 8, 8, 8, 6, 6, 5, 5, 6, 5) {
+	switch g.R.Pick(20, 8, 8, 8, 10, 8, 8, 8, 6, 6, 5, 5, 6, 5, 5) {
+	case 14: // numeric for with a non-numeric operand
+		g.use("fault-for-operand")
+		ops := []Expr{num(1), num(2), num(1)}
+		ops[g.R.Intn(3)] = []Expr{&Table{}, str("x"), &Nil{}, &True{}}[g.R.Intn(4)]
+		return []Stmt{&NumFor{X: z, A: ops[0], B: ops[1], C: ops[2], Body: []Stmt{emit(v(z))}}}
 	case 12: // the failing host function is reached through an unnamed callee (t[i](...))
 		g.use("fault-indexed-builtin")
 		if g.R.Bool() {
@@ -351,13 +356,22 @@ func (g *Gen) pcallShape(depth, d int) []Stmt {
 	obs := []Stmt{emit(v(ok), call("type", v(e))),
 		&If{C: bin("==", call("type", v(e)), str("table")), Then: []Stmt{emit(idx(v(e), "code"))}, Else: []Stmt{emit(v(e), v(e2))}, HasElse: true}}
 	g.declare(&varInfo{Name: ok, Ty: TBool})
-	switch g.R.Pick(55, 30, 15) {
+	switch g.R.Pick(55, 30, 15, 10) {
 	case 0:
 		return append([]Stmt{&Local{Names: []string{ok, e, e2}, Es: []Expr{call("pcall", f)}}}, obs...)
 	case 1:
 		g.use("xpcall")
 		h := &Func{Params: []string{"m"}, Body: []Stmt{emit(str("handler"), call("type", v("m"))), ret(v("m"))}}
 		return append([]Stmt{&Local{Names: []string{ok, e, e2}, Es: []Expr{call("xpcall", f, h)}}}, obs...)
+	case 3: // host-side call of a vararg function with fewer arguments than named parameters
+		g.use("pcall-vararg-callee")
+		// a fresh AST node per use: the printer records line numbers in the nodes
+		vf := func() Expr {
+			return &Func{Params: []string{"pa", "pb", "pc"}, Vararg: true, Body: []Stmt{emit(v("pa"), v("pb"), v("pc"), call("select", str("#"), &Varargs{})), ret(v("pc"), &Varargs{})}}
+		}
+		return []Stmt{emit(call("pcall", vf())), emit(call("pcall", vf(), num(1))), emit(call("pcall", vf(), num(1), num(2), num(3), num(4), num(5))),
+			emit(call("xpcall", &Func{Vararg: true, Body: []Stmt{ret(call("select", str("#"), &Varargs{}))}}, v("type"))),
+			emit(call("coroutine.resume", call("coroutine.create", vf()), num(9)))}
 	default: // nested pcall: inner catches, outer sees success
 		g.use("pcall-nested")
 		outer := &Func{Body: []Stmt{&Local{Names: []string{"iok", "ie"}, Es: []Expr{call("pcall", f)}}, emit(str("inner"), v("iok")), ret(v("iok"), v("ie"))}}
@@ -459,7 +473,10 @@ func (g *Gen) metaShape(depth, d int) []Stmt {
 				{Kind: 1, Name: "__newindex", E: &Func{Params: []string{"t", "k", "x"}, Body: []Stmt{emit(str("newidx"), v("k"), v("x")), &CallS{E: call("rawset", v("t"), v("k"), bin("*", v("x"), num(2)))}}}}}}),
 			local1(o, call("setmetatable", &Table{Items: []TItem{{Kind: 1, Name: "own", E: num(1)}}}, v(mt))),
 			emit(idx(v(o), "own"), idx(v(o), "inherited"), idx(v(o), "missing")),
-			set(idx(v(o), "own"), num(5)), set(idx(v(o), "fresh"), num(6)), emit(idx(v(o), "own"), call("rawget", v(o), str("fresh")))}
+			set(idx(v(o), "own"), num(5)), set(idx(v(o), "fresh"), num(6)), emit(idx(v(o), "own"), call("rawget", v(o), str("fresh"))),
+			// the same through run-time keys (non-constant key path of the VM)
+			local1("dynk", bin("..", str("dy"), str("n"))), set(&Index{E: v(o), K: v("dynk")}, num(7)), set(&Index{E: v(o), K: num(3)}, num(8)),
+			emit(&Index{E: v(o), K: v("dynk")}, &Index{E: v(o), K: num(3)}, &Index{E: v(o), K: bin("..", str("miss"), str("ing"))}, call("rawget", v(o), v("dynk")))}
 	case 1: // arithmetic and concat handlers, left/right operand
 		g.use("meta-arith")
 		op := []string{"+", "-", "*", "/", "%", "^", ".."}[g.R.Intn(7)]
@@ -487,7 +504,9 @@ func (g *Gen) metaShape(depth, d int) []Stmt {
 			{Kind: 1, Name: "__unm", E: &Func{Params: []string{"a"}, Body: []Stmt{ret(str("neg"))}}},
 			{Kind: 1, Name: "__tostring", E: &Func{Params: []string{"a"}, Body: []Stmt{ret(str("obj!"))}}}}}),
 			local1(o, call("setmetatable", &Table{}, v(mt))),
-			emit(&Call{F: v(o), Args: []Expr{num(1), num(2)}}), emit(&Un{Op: "-", A: v(o)}, call("tostring", v(o)))}
+			emit(&Call{F: v(o), Args: []Expr{num(1), num(2)}}), emit(&Un{Op: "-", A: v(o)}, call("tostring", v(o))),
+			local1("ud", call("newud", &Table{Items: []TItem{{Kind: 1, Name: "__len", E: &Func{Params: []string{"u"}, Body: []Stmt{ret(num(7))}}}, {Kind: 1, Name: "__unm", E: &Func{Params: []string{"u"}, Body: []Stmt{ret(str("udneg"))}}}}})),
+			emit(&Un{Op: "#", A: v("ud")}, &Un{Op: "-", A: v("ud")}, call("type", v("ud")))}
 	case 5: // __newindex chain through tables: a key present in an intermediate table is raw-assigned there
 		g.use("meta-newindex-chain")
 		mid, last := g.fresh("mid"), g.fresh("last")
